@@ -1,5 +1,6 @@
 import FlexModel.Proto
 import FlexModel.Net.Mesh
+import FlexModel.Net.Lag
 namespace FlexModel.Net
 open FlexModel.Proto
 
@@ -13,6 +14,7 @@ structure NetState where
   plain : Bool := false              -- true: the semantics of the theorems (unbounded duplicate memory and SNs)
   air : List (Addr × Pkt) := []      -- pairs still in the air (only between `reqq` … `drain`)
   mark : List Station := []          -- station states at the first `reqq` of a burst (baseline of `drain`'s report)
+  lag : List Addr := []              -- receivers that lag behind (`pump` delivers nothing to them; `drain` everything)
 
 def hexDigit (n : Nat) : Char := if n < 10 then Char.ofNat (48 + n) else Char.ofNat (87 + n)
 def hexOf (b : Bytes) : String :=
@@ -71,6 +73,15 @@ def runEv (st : NetState) (first : Mesh → Mesh) (seed : Nat) : NetState × Str
   ({ st with sts := sts', air := d.1.air, mark := [] },
    newsOf base sts' ++ (if d.1.air.isEmpty then "" else " !fuel"))
 
+/-- lag pump: FIFO per receiver, nothing is delivered to the lagging receivers (`drainLag`); reports the handler
+invocations since the last report -/
+def pumpEv (st : NetState) : NetState × String :=
+  let d := drainLag (semOf st) (reachOf st) st.lag 200000 (meshOf st)
+  let sts' := d.1.toList
+  let base := if st.mark.isEmpty then st.sts else st.mark
+  ({ st with sts := sts', air := d.1.air, mark := [] },
+   newsOf base sts' ++ (if (pickLag st.lag d.1.air).isNone then "" else " !fuel"))
+
 /-- hand a request to a station without delivering anything yet (bursts: several requests in the air together) -/
 def queueEv (st : NetState) (first : Mesh → Mesh) : NetState × String :=
   let m := first (meshOf st)
@@ -128,6 +139,15 @@ def netStep (st : NetState) (t : List String) : NetState × String :=
     match nat? seed with
     | some seed => runEv st id seed
     | none => (st, "bad-op")
+  | ["lag", a] =>
+    match nat? a with
+    | some a => ({ st with lag := a :: st.lag }, "ok")
+    | none => (st, "bad-op")
+  | ["unlag", a] =>
+    match nat? a with
+    | some a => ({ st with lag := st.lag.filter (· ≠ a) }, "ok")
+    | none => (st, "bad-op")
+  | ["pump"] => pumpEv st
   | ["down", a] =>
     match nat? a with
     | some a => ({ st with down := a :: st.down }, "ok")
